@@ -156,7 +156,7 @@ def hmc_workers(prop, depth, profiles, parities, flags, roots=None, alphabet="fu
     return ws
 
 
-def plan_hmc(prop, flags_quick, flags_thorough, oracle_text, profiles_quick=("rel",), both_profiles_thorough=True, with_loom=False):
+def plan_hmc(prop, flags_quick, flags_thorough, oracle_text, profiles_quick=("rel",), both_profiles_thorough=True, with_loom=False, with_miri=False):
     def plan(tier):
         if tier == "thorough":
             ws = hmc_workers(prop, 5, ["rel", "dbg"] if both_profiles_thorough else ["rel"], ["even", "odd"], flags_thorough)
@@ -167,8 +167,16 @@ def plan_hmc(prop, flags_quick, flags_thorough, oracle_text, profiles_quick=("re
         extra = None
         if with_loom:
             import loomrun
-            sets = [dict(set="quick", shards=16)] if tier != "thorough" else [dict(set="quick", shards=16), dict(set="full", shards=48)]
-            extra = lambda vc, t: loomrun.run(vc, prop, t, sets)
+            sets = [dict(set="quick", shards=16)] if tier != "thorough" else [dict(set="quick", shards=16), dict(set="full", shards=64, preemptions=3)]
+            def extra(vc, t):
+                r, e = loomrun.run(vc, prop, t, sets)
+                if with_miri and t == "thorough":
+                    import mirirun
+                    roots0 = [x for x in HMC_ROOTS if x not in ("15,64",)]
+                    jobs = [(x, 0, 0, 1) for x in roots0] + [(x, 1, i, 16) for x in ("2,4", "9,4", "14,4") for i in range(16)]
+                    r2, e2 = mirirun.run(vc, prop, jobs)
+                    r, e = r + r2, e + e2
+                return r, e
         return dict(workers=ws, extra=extra, level="model_checking", distinct_is_max=False, rule=HMC_RULE + "; oracle of this check: " + oracle_text + (
                     "; additionally the loom program family of C05 (concurrent histories) is run and its violations of this property are reported here" if with_loom else ""),
                     bounds="quick: depth 4 (root + 4 operations), full alphabet incl. out-of-contract arguments, both parities; thorough: depth 5 in rel+dbg x even+odd plus focused alphabets (Bytes-only, BytesMut structure, conversions) to depth 7-8",
@@ -181,16 +189,17 @@ def plan_loom(prop, oracle_text):
     def plan(tier):
         import loomrun
         if tier == "thorough":
-            sets = [dict(set="full", shards=48), dict(set="k3", shards=48, preemptions=3), dict(set="three", shards=16, preemptions=3), dict(set="quick", shards=16)]
+            sets = [dict(set="quick", shards=16), dict(set="full", shards=96, preemptions=4), dict(set="k3", shards=64, preemptions=3), dict(set="three", shards=32, preemptions=3)]
         else:
-            sets = [dict(set="quick", shards=16)]
+            sets = [dict(set="quick", shards=16), dict(set="full", shards=64, preemptions=2)]
         return dict(custom=lambda vc, t: loomrun.run(vc, prop, t, sets), level="model_checking", distinct_is_max=False,
                     rule="loom (exhaustive DPOR over interleavings and the C11 outcomes loom models) on the real crate compiled with loom atomics, over a generated family of programs: "
                          "representation in {promotable even/odd, with and without front offset, promoted, Vec-shared, owner-backed, frozen BytesMut half, two/three live BytesMut pieces, static} x main behaviour "
                          "{keep, drop early, clone+drop, into Vec} x unordered pairs (triples) of per-thread operation sequences over {clone via &Bytes, clone own, read, slice, drop, try_into_mut, Into<BytesMut>, Into<Vec>, "
                          "BytesMut write / reclaiming reserve / try_reclaim / freeze / unsplit}; one loom::model per program; oracle: " + oracle_text +
                          ". evaluations = loom executions; distinct_nontrivial = programs in which different schedules produced different outcomes (who won ownership)",
-                    bounds="quick: 2 threads + main, <= 2 ops per thread over the racy core, programs with <= 3 ops in total, unbounded preemptions; thorough: full alphabet K<=2 unbounded, racy core K<=3 with preemption bound 3, 3 worker threads with preemption bound 3",
+                    bounds="quick: (a) 2 threads + main, <= 2 ops per thread over the racy core, programs with <= 3 ops in total (about 1 100 programs), unbounded preemptions; (b) the full alphabet K<=2 (about 40 500 programs) with preemption bound 2. "
+                           "thorough: (a) again, full alphabet K<=2 with preemption bound 4, racy core K<=3 (about 48 000 programs) with bound 3, three worker threads with bound 3. Unbounded exploration of the full family was measured at about 80 CPU-minutes per 200th of the family and is not part of any tier",
                     assumptions=["loom's memory model is a sound subset of C11 (no SeqCst fences precision, no load buffering)", "ghost-cell accesses stand for the crate's internal buffer accesses (placed so that a reported race implies a real one)",
                                  "the extra-platforms (portable-atomic) build is not modelled by loom"])
     return plan
@@ -251,8 +260,8 @@ def plan_c17(tier):
         workers=ws, level="fault_enumeration", distinct_is_max=True,
         rule="fault enumeration: scripted misbehaving safe trait impls (Buf: remaining() +-1, +-7, 0, usize::MAX/2, usize::MAX or panicking; chunk() empty / shorter / longer-than-admitted / panicking; advance() ignored / partial / panicking; "
              "AsRef owner that panics or answers a different slice per call; iterators with size hints 0 / too small / too large / usize::MAX or panicking) passed to 24 entry points (BytesMut/Vec/slice/Limit/Chain put, default and overridden "
-             "copy_to_bytes, copy_to_slice, getters on fast and slow paths and through Take/&mut/Box<dyn>/Chain, chunks_vectored, Reader, IntoIter, from_owner, Extend/FromIterator); ALL placements of <= 2 deviations among the first calls of each method "
-             "(quick: all single deviations among the first 6 calls + all pairs among the first 4 in rel; thorough also dbg and odd parity); lies that lead to allocatable-but-huge requests run in forked children; oracle: allocator ledger, canaries, "
+             "copy_to_bytes, copy_to_slice, getters on fast and slow paths and through Take/&mut/Box<dyn>/Chain, chunks_vectored, Reader, IntoIter, from_owner, Extend/FromIterator); ALL placements of <= 2 (first calls: <= 3) deviations among the first calls of each method "
+             "(quick: all single deviations among the first 6 calls, all pairs among the first 6 and all triples among the first 2 calls of each method in rel, a reduced set in dbg/odd; thorough: the full set in rel+dbg x even+odd); lies that lead to allocatable-but-huge requests run in forked children; oracle: allocator ledger, canaries, "
              "no guard/poison/uninitialised byte in any output (the liar's data sits flush against a canary zone), nothing leaked after unwinding. distinct_nontrivial = distinct deviation scripts",
         assumptions=["panics and wrong data are allowed outcomes", "a fuel counter bounds every scripted implementation so that lying cannot make an execution infinite"],
     )
@@ -265,7 +274,7 @@ PLANS = {
     "C05": plan_loom("C05", "every read sees the expected bytes at the original address; at most one party obtains the buffer without copying and whoever does overwrites it; the tracked buffer is freed exactly once, no control block referring to it leaks, no block is freed twice"),
     "C06": plan_loom("C06", "loom's causality check on ghost UnsafeCells: a ghost read before every use/drop of a handle, a ghost write at the real free (inside the allocator hook) and after every zero-copy exclusive acquisition; plus loom's own checks on the crate's atomics (with_mut vs concurrent loads)"),
     "C01": plan_hmc("C01", [], [], "after every step every live handle's bytes, len, Buf::remaining/chunk equal an independent Vec<u8> model with globally unique payload bytes; Vec::from results compared", with_loom=True),
-    "C02": plan_hmc("C02", ["--oom-probes"], ["--oom-probes"], "allocator ledger (unknown/interior/double/wrong-layout frees), canaries and poison verified after every step, containment of every non-empty handle in one live block or registered region, process status (crash handler), fork-isolated allocatable-but-huge requests", profiles_quick=("rel", "dbg"), with_loom=True),
+    "C02": plan_hmc("C02", ["--oom-probes"], ["--oom-probes"], "allocator ledger (unknown/interior/double/wrong-layout frees), canaries and poison verified after every step, containment of every non-empty handle in one live block or registered region, process status (crash handler), fork-isolated allocatable-but-huge requests", profiles_quick=("rel", "dbg"), with_loom=True, with_miri=True),
     "C03": plan_hmc("C03", ["--perms"], ["--perms"], "drop-all epilogue after every transition and in every permutation at every new canonical state: no crate-attributed block live, no double free; instrumented owner: as_ref once, dropped exactly once, not before the last view, also when as_ref panics", with_loom=True),
     "C04": plan_hmc("C04", [], [], "BytesMut capacity regions pairwise disjoint, disjoint from visible Bytes, inside one live block; fill-spare writes invisible elsewhere; reserve/try_reclaim promises incl. unrepresentable sizes", profiles_quick=("rel", "dbg")),
     "C07": plan_hmc("C07", [], [], "per transition: listed sharing operations allocate no align-1 block and every resulting non-empty handle (for split_off/split_to also empty ones) starts at source address + logical offset", with_loom=True),
@@ -327,10 +336,12 @@ def merge(pid, tier, plan, results):
 
 
 def setup(vc):
-    for feat, profs in [("std", ["rel", "dbg"]), ("serde", ["rel", "dbg"])]:
+    for feat, profs, bins in [("std", ["rel", "dbg"], ["bufmc", "hmc"]), ("serde", ["rel", "dbg"], ["bufmc"]), ("nostd", ["rel", "dbg"], ["hmc"]), ("extra", ["rel", "dbg"], ["hmc"])]:
         for prof in profs:
-            for b in ["bufmc", "hmc"]:
+            for b in bins:
                 vc.build(b, feat, prof)
+    import loomrun
+    loomrun.build(vc)
     sys.exit(0)
 
 
